@@ -17,6 +17,8 @@ def build(names, rnd):
     with zipfile.ZipFile(bio, "w") as z:
         for i, n in enumerate(names):
             data = (("content of %s " % n) * (1 + i % 5)).encode("utf-8") + bytes(range(i % 7))
+            if (i + len(names)) % 4 == 3:
+                data = b""              # zero-length entries (stored and deflated) are entries too
             contents[n] = data
             z.writestr(zipfile.ZipInfo(n), data, compress_type=zipfile.ZIP_DEFLATED if i % 2 else zipfile.ZIP_STORED)
     return bio.getvalue(), contents
